@@ -28,7 +28,7 @@ EXTENDS TimeSync
 Slack == 3     \* the delays in c are the observed ones of the first exchange; the second leg may differ by the settle milliseconds
 
 MonInit == [viol |-> <<>>, n |-> 0]
-V(m, reason, l, e, ctx) == [m EXCEPT !.viol = Append(@, [prop |-> "C18", reason |-> reason, line |-> l, sc |-> e.id, ctx |-> ctx])]
+V(m, reason, l, e, ctx) == [m EXCEPT !.viol = IF Len(@) >= 300 THEN @ ELSE Append(@, [prop |-> "C18", reason |-> reason, line |-> l, sc |-> e.id, ctx |-> ctx])]
 
 ObsBound(e) == IF e.c.proc = "lan" THEN e.fwdObs ELSE Abs(e.fwdObs - e.backObs)
 
